@@ -228,10 +228,25 @@ def eval_expr(v, leaf):
         return bits - a.bit_length() if a >= 0 else 0
     if k == 'mutvar' and len(v) > 4 and not v[4]:
         return eval_expr(v[3], leaf)
-    if k == 'call' and v[1] in ('saturating_add', 'wrapping_add', 'saturating_sub', 'min', 'max'):
+    # operator traits called as methods (`&u8 << 2` resolves to `<&u8 as Shl<i32>>::shl`)
+    _ops = {'shl': 'Shl', 'shr': 'Shr', 'add': 'Add', 'sub': 'Sub', 'mul': 'Mul', 'div': 'Div', 'rem': 'Rem', 'bitor': 'BitOr', 'bitand': 'BitAnd'}
+    if k == 'call' and v[1] in _ops and len(v) > 3 and len(v[3]) == 2 and 'core::ops::' in str(v[2]):
+        return eval_expr(('bin', _ops[v[1]], v[3][0], v[3][1]), leaf)
+    if k in ('ref', 'deref') and len(v) > 1:
+        return eval_expr(v[1], leaf)
+    if k == 'call' and v[1] in ('saturating_add', 'wrapping_add', 'saturating_sub', 'min', 'max', 'saturating_mul', 'saturating_div'):
         a, b = eval_expr(v[3][0], leaf), eval_expr(v[3][1], leaf)
         if a is None or b is None:
             return None
+        if v[1] == 'saturating_div':
+            if b == 0:
+                raise ArithPanic('division by zero')
+            return a // b
+        if v[1] == 'saturating_mul':
+            import re as _re
+            m = _re.search(r'<impl u(\d+|size)>', str(v[2]))
+            bits = 64 if not m or m.group(1) == 'size' else int(m.group(1))
+            return min(a * b, (1 << bits) - 1)
         return {'saturating_add': a + b, 'wrapping_add': a + b, 'saturating_sub': max(a - b, 0), 'min': min(a, b), 'max': max(a, b)}[v[1]]
     return None
 
